@@ -1,5 +1,6 @@
 import Driver.EngIE
 import Driver.EngDec
+import Driver.EngExp
 open Driver
 
 def dispatch (s : DState) (line : String) : DState × String :=
@@ -10,12 +11,19 @@ def dispatch (s : DState) (line : String) : DState × String :=
     else if e == "ie" then (s, engIE args)
     else if e == "dec" then engDec s args
     else if e == "reg" then (s, engReg args)
+    else if e == "bld" then
+      let (b, o) := engBld s.bld args
+      ({ s with bld := b }, o)
+    else if e == "exp" then
+      let (x, o) := engExp s.exp args
+      ({ s with exp := x }, o)
     else if e == "chk" then
       match args with
       | "ie" :: rest => (s, chkIE rest)
       | "dec" :: rest => chkDec true s rest
       | "decm" :: rest => chkDec false s rest
       | "c17" :: rest => (s, chkC17 rest)
+      | "bld" :: rest => (s, chkBld rest)
       | _ => (s, "na")
     else (s, "bad-op")
 
